@@ -107,15 +107,19 @@ theorem planar_none_iff (fovy aspect h n f : α) :
     planar fovy aspect h n f = none ↔
       ¬ (-(Angle.turnDiv (Lits.radFull : α) 2) < fovy ∧ fovy < Angle.turnDiv (Lits.radFull : α) 2 ∧
          0 ≤ h ∧ absDiffEqD (sabs aspect) (0 : α) = false ∧ absDiffEqD f n = false ∧
-         (-((1 : α) / planarInvF fovy h) < smin f n ∨ smax f n < -((1 : α) / planarInvF fovy h))) := by
+         ¬ ((¬ Rad.tan (fovy / (two : α)) < 0 ∧ ¬ 0 < Rad.tan (fovy / (two : α))) ∧ ¬ 0 < h) ∧
+         (((¬ Rad.tan (fovy / (two : α)) < 0 ∧ ¬ 0 < Rad.tan (fovy / (two : α))) ∧ 0 < h) ∨
+          -((1 : α) / planarInvF fovy h) < smin f n ∨ smax f n < -((1 : α) / planarInvF fovy h))) := by
   unfold planar; split_ifs <;> simp_all
 theorem planar_some (fovy aspect h n f : α)
     (hh : -(Angle.turnDiv (Lits.radFull : α) 2) < fovy ∧ fovy < Angle.turnDiv (Lits.radFull : α) 2 ∧
          0 ≤ h ∧ absDiffEqD (sabs aspect) (0 : α) = false ∧ absDiffEqD f n = false ∧
-         (-((1 : α) / planarInvF fovy h) < smin f n ∨ smax f n < -((1 : α) / planarInvF fovy h))) :
+         ¬ ((¬ Rad.tan (fovy / (two : α)) < 0 ∧ ¬ 0 < Rad.tan (fovy / (two : α))) ∧ ¬ 0 < h) ∧
+         (((¬ Rad.tan (fovy / (two : α)) < 0 ∧ ¬ 0 < Rad.tan (fovy / (two : α))) ∧ 0 < h) ∨
+          -((1 : α) / planarInvF fovy h) < smin f n ∨ smax f n < -((1 : α) / planarInvF fovy h))) :
     planar fovy aspect h n f = some (planarMat fovy aspect h n f) := by
-  obtain ⟨h1, h2, h3, h4, h5, h6⟩ := hh
-  unfold planar; simp [h1, h2, h3, h4, h5, h6]
+  obtain ⟨h1, h2, h3, h4, h5, h6, h7⟩ := hh
+  unfold planar; simp only [h1, h2, h3, h4, h5, h6, h7, not_true_eq_false, not_false_eq_true, if_false, if_true, Bool.false_eq_true]
 /-- `ortho` never rejects -/
 theorem ortho_total (l r b t n f : α) : ∃ m, ortho l r b t n f = m := ⟨_, rfl⟩
 end reject
